@@ -21,12 +21,19 @@ func Denitr(g *GlobalVarsMain, thetasatFromPorges bool) {
 		thetasat = 1 - (1.45 / 2.65)
 	}
 	thetarel := thetaOb30 / thetasat
-	nitratOb30 := g.C1[0] + g.C1[1] + g.C1[2]
+	// only layers of the profile hold nitrate (the array slots below a shallow profile are not soil)
+	c1 := func(z int) float64 {
+		if z < g.N {
+			return g.C1[z]
+		}
+		return 0
+	}
+	nitratOb30 := c1(0) + c1(1) + c1(2)
 	if nitratOb30 > 0 {
 		layerFraction := []float64{
-			g.C1[0] / nitratOb30,
-			g.C1[1] / nitratOb30,
-			g.C1[2] / nitratOb30}
+			c1(0) / nitratOb30,
+			c1(1) / nitratOb30,
+			c1(2) / nitratOb30}
 
 		tempOb30 := (g.TSOIL[0][0] + g.TSOIL[0][1] + g.TSOIL[0][2] + g.TSOIL[0][3]) / 4
 		if tempOb30 < 0 {
@@ -104,27 +111,34 @@ func Denitmo(g *GlobalVarsMain) {
 	if thetasat3 == 0 {
 		thetarel3 = 0 // profile ends above 60 cm
 	}
-	nitratOb30 := g.C1[0] + g.C1[1] + g.C1[2]
-	nitratOb60 := g.C1[3] + g.C1[4] + g.C1[5]
-	nitratOb90 := g.C1[6] + g.C1[7] + g.C1[8]
+	// only layers of the profile hold nitrate (the array slots below a shallow profile are not soil)
+	c1 := func(z int) float64 {
+		if z < g.N {
+			return g.C1[z]
+		}
+		return 0
+	}
+	nitratOb30 := c1(0) + c1(1) + c1(2)
+	nitratOb60 := c1(3) + c1(4) + c1(5)
+	nitratOb90 := c1(6) + c1(7) + c1(8)
 	var layerFraction30 [3]float64
 	var layerFraction60 [3]float64
 	var layerFraction90 [3]float64
 
 	if nitratOb30 > 0 {
-		layerFraction30[0] = g.C1[0] / nitratOb30
-		layerFraction30[1] = g.C1[1] / nitratOb30
-		layerFraction30[2] = g.C1[2] / nitratOb30
+		layerFraction30[0] = c1(0) / nitratOb30
+		layerFraction30[1] = c1(1) / nitratOb30
+		layerFraction30[2] = c1(2) / nitratOb30
 	}
 	if nitratOb60 > 0 {
-		layerFraction60[0] = g.C1[3] / nitratOb60
-		layerFraction60[1] = g.C1[4] / nitratOb60
-		layerFraction60[2] = g.C1[5] / nitratOb60
+		layerFraction60[0] = c1(3) / nitratOb60
+		layerFraction60[1] = c1(4) / nitratOb60
+		layerFraction60[2] = c1(5) / nitratOb60
 	}
 	if nitratOb90 > 0 {
-		layerFraction90[0] = g.C1[6] / nitratOb90
-		layerFraction90[1] = g.C1[7] / nitratOb90
-		layerFraction90[2] = g.C1[8] / nitratOb90
+		layerFraction90[0] = c1(6) / nitratOb90
+		layerFraction90[1] = c1(7) / nitratOb90
+		layerFraction90[2] = c1(8) / nitratOb90
 	}
 
 	tempOb30 := g.TEMP[g.TAG.Index]
